@@ -348,4 +348,33 @@ theorem decode_types (b : Bytes) (f : TBI) (h : decode b = some f) :
     · exact absurd h (by simp)
     · injection h with h; subst h; rfl
 
+/-! ### the witness of the January-1 counterexample (C15_cex_jan1) -/
+
+def wideCols : List (Str × Nat) := List.replicate 62 ([97], 14)
+/-- 62 STRING16 columns in a 1D bucket: record length 3976 -/
+def wide : TBI := newTimeBucketInfo (fun t => if t = 14 then 64 else 0) 86400000000000 [68] 2020 wideCols 0
+def junk : Bytes := List.replicate 8 0 ++ List.replicate 3968 255
+
+set_option maxRecDepth 100000 in
+theorem wide_wf : WF wide := by
+  constructor <;> decide
+
+set_option maxRecDepth 100000 in
+theorem wide_recLen : wide.recordLength = 3976 := by decide
+
+set_option maxRecDepth 100000 in
+theorem wide_type0 : wide.types.head? = some 14 := by decide
+
+theorem junk_length : junk.length = 3976 := by
+  unfold junk; rw [List.length_append, List.length_replicate, List.length_replicate]
+
+theorem junk_drop : ∃ t, junk.drop 32 = 255 :: t := by
+  refine ⟨List.replicate 3943 255, ?_⟩
+  have : junk.drop 32 = List.replicate (3943 + 1) 255 := by
+    unfold junk
+    rw [List.drop_append, List.length_replicate, List.drop_replicate, List.drop_replicate]
+    rfl
+  rw [this, List.replicate_succ]
+
+
 end Mkts.Header
